@@ -17,8 +17,8 @@ def _prep(trs):
 
 
 def _arches():
-    import productmd.common
-    return list(productmd.common.RPM_ARCHES)
+    from . import enums
+    return list(enums.RPM_ARCHES)
 
 
 def validate(ctx, sources=None):
